@@ -196,6 +196,17 @@ class BndEval:
                             item = True
                 if item and len(clos) == 1 and _closure_returns_field0(self.crate.fns[clos[0]]):
                     return True, "byte offset of a char_indices() element of the same string (or %s)" % dflt[1]
+                # opt is an item yielded by an iterator over char_indices() of S, of a prefix S[..e] (same offsets), or of
+                # a suffix S[b..] (offsets relative to b: the closure must add b back)
+                rel = self.char_indices_item_rel(c["args"][0], S, depth, seen)
+                if rel is not None and len(clos) == 1:
+                    cf = self.crate.fns[clos[0]]
+                    if rel[0] in ("same", "prefix") and _closure_returns_field0(cf):
+                        return True, "byte offset of a char_indices() item of %s (or %s)" % ("the same string" if rel[0] == "same" else "a prefix of the same string", dflt[1])
+                    if rel[0] == "suffix":
+                        cap = _closure_returns_capture_plus_field0(cf)
+                        if cap is not None and self.capture_key(c, clos[0], cap) == self.key(rel[1]):
+                            return True, "suffix start + byte offset of a char_indices() item of that suffix (or %s)" % dflt[1]
                 return False, "result of map_or"
             if (c.get("fn") == "std::iter::Iterator::count") and "TakeWhile<std::str::Chars" in " ".join(c.get("targs", [])):
                 # number of leading chars satisfying an ASCII-only predicate == number of leading bytes
@@ -402,7 +413,7 @@ class BndEval:
                 return self.is_suffix_of(d[2]["args"][0], S, depth + 1)
         return False
 
-    def is_char_indices_item(self, base, projs, S):
+    def is_char_indices_item(self, base, projs, S, _depth=0):
         """base local is an item `(usize, char)` produced by char_indices() of S (directly or via a collected Vec)"""
         f = self.f
         # element reference returned by <Vec as Index>::index / slice get on a Vec collected from char_indices()
@@ -417,12 +428,18 @@ class BndEval:
                 if p is None:
                     continue
                 bl = place_local(p)
+                if not place_projs(p) and bl != base and _depth < 6 and self.is_char_indices_item(bl, [], S, _depth + 1):
+                    return True  # plain copy of an item
                 # (*vec)[i] : index projection on a Vec/slice of (usize, char)
                 if any(isinstance(e, list) and e[0] == "i" for e in place_projs(p)):
                     if self.vec_from_char_indices(bl, S):
                         return True
-                # Some payload of next() over CharIndices
+                # Some payload of next() over CharIndices (possibly unwrapped by `?`)
                 for d2 in f.whole_defs(bl):
+                    if d2[0] == "call" and (d2[2].get("fn") or "").endswith("Try::branch") and d2[2]["args"] and op_local(d2[2]["args"][0]) is not None:
+                        for d3 in f.whole_defs(op_local(d2[2]["args"][0])):
+                            if d3[0] == "call" and "CharIndices" in " ".join(d3[2].get("targs", [])) and self.char_indices_src(d3[2]["args"][0], S):
+                                return True
                     if d2[0] == "call" and "CharIndices" in " ".join(d2[2].get("targs", [])) and self.char_indices_src(d2[2]["args"][0], S):
                         return True
         # projection directly on an indexed vec element: ((*vec)[i]).0
@@ -437,6 +454,71 @@ class BndEval:
                     if any(cid == f.id for cid, _ in c.get("clos", [])) and "CharIndices" in " ".join(c.get("targs", [])):
                         return True
         return False
+
+    def char_indices_item_rel(self, op, S, depth, seen):
+        """op: an Option<(usize, char)> produced by an Iterator method over char_indices() of T; returns ('same',),
+        ('prefix',) or ('suffix', start operand) describing T relative to S, else None"""
+        l = op_local(op)
+        for d in self.f.whole_defs(l) if l is not None else []:
+            if d[0] != "call":
+                return None
+            c = d[2]
+            if "CharIndices" not in " ".join(c.get("targs", [])) or \
+                    not re.search(r"Iterator::(find|next|last|rfind|nth|next_back|nth_back)$", c.get("fn") or ""):
+                return None
+            T = self.char_indices_operand(c["args"][0])
+            if T is None:
+                return None
+            sid = self.strid(T)
+            if sid == S:
+                return ("same",)
+            if sid is None or sid[0] != "local":
+                return None
+            for d2 in self.f.whole_defs(sid[1]):
+                if d2[0] == "call" and is_str_index(d2[2]) and self.strid(d2[2]["args"][0]) == S:
+                    rng = self.range_of(d2[2]["args"][1])
+                    if rng is not None and rng[0] == "RangeTo":
+                        return ("prefix",)
+                    if rng is not None and rng[0] == "RangeFrom" and self.bnd(rng[1], S, depth + 1, seen)[0]:
+                        return ("suffix", rng[1])
+            return None
+        return None
+
+    def char_indices_operand(self, op, depth=0):
+        """the string operand of the char_indices() call an iterator value is built on (through adaptors)"""
+        l = op_local(op)
+        if l is None or depth > 8:
+            return None
+        for d in self.f.whole_defs(l):
+            if d[0] == "call":
+                c = d[2]
+                if (c.get("res") or "").endswith("<impl str>::char_indices"):
+                    return c["args"][0]
+                if c["args"]:
+                    r = self.char_indices_operand(c["args"][0], depth + 1)
+                    if r is not None:
+                        return r
+            if d[0] == "assign" and d[3][0] == "use":
+                r = self.char_indices_operand(d[3][1], depth + 1)
+                if r is not None:
+                    return r
+            if d[0] == "assign" and d[3][0] == "ref":
+                r = self.char_indices_operand(["cp", d[3][2]], depth + 1)
+                if r is not None:
+                    return r
+        return None
+
+    def capture_key(self, call, cid, cap):
+        """key of the value captured (by copy or by reference) in slot `cap` of closure cid built in this function"""
+        for _bb, _si, pl, rv, _sp in self.f.assigns():
+            if rv[0] == "agg" and rv[1][0] == "closure" and rv[1][1] == cid and cap < len(rv[2]):
+                o = rv[2][cap]
+                l = op_local(o)
+                for d in self.f.whole_defs(l) if l is not None else []:
+                    if d[0] == "assign" and d[3][0] == "ref" and not place_projs(d[3][2]):
+                        return self.key(["cp", d[3][2]])
+                return self.key(o)
+        return None
 
     def vec_from_char_indices(self, l, S, depth=0):
         f = self.f
@@ -561,6 +643,56 @@ def _closure_returns_field0(cf):
         return False
     rets = [rv for _bb, _si, pl, rv, _sp in cf.assigns() if place_local(pl) == 0]
     return bool(rets) and all(rv[0] == "use" and src_ok(rv[1]) for rv in rets) and not any(place_local(c["dest"]) == 0 for _b, c in cf.calls())
+
+
+def _closure_returns_capture_plus_field0(cf):
+    """the closure's result is `<captured value> + <field 0 of its tuple parameter>`; returns the capture slot"""
+    for _bb, _si, pl, rv, _sp in cf.assigns():
+        if rv[0] == "bin" and rv[1] in ("Add", "AddWithOverflow"):
+            cap = None
+            fld = False
+            for o in (rv[2], rv[3]):
+                pth = _closure_operand_path(cf, o)
+                if pth and pth[0] == "cap":
+                    cap = pth[1]
+                elif pth and pth[0] == "param0":
+                    fld = True
+            if cap is not None and fld:
+                # the sum is what is returned
+                dst = place_local(pl)
+                if dst == 0 or any(place_local(pl2) == 0 and rv2[0] == "use" and place_local(op_place(rv2[1]) or [None]) == dst
+                                   for _b, _s, pl2, rv2, _sp2 in cf.assigns() if op_place(rv2[1]) is not None if rv2[0] == "use"):
+                    return cap
+    return None
+
+
+def _closure_operand_path(cf, o, depth=0):
+    p = op_place(o)
+    if p is None or depth > 5:
+        return None
+    base = place_local(p)
+    fs = proj_fields(place_projs(p))
+    if base == 1 and fs and fs[0][0].startswith("closure"):
+        idx = [e[1] for e in place_projs(p) if isinstance(e, list) and e[0] == "f"]
+        return ("cap", idx[0]) if idx else None
+    if base == 2 and fs and fs[-1] == ("tuple", "0"):
+        return ("param0",)
+    if not fs:
+        ds = cf.whole_defs(base)
+        if len(ds) == 1 and ds[0][0] == "assign" and ds[0][3][0] == "use":
+            return _closure_operand_path(cf, ds[0][3][1], depth + 1)
+        if len(ds) == 1 and ds[0][0] == "assign" and ds[0][3][0] == "ref":
+            return _closure_operand_path(cf, ["cp", ds[0][3][2]], depth + 1)
+    elif base not in (1, 2):
+        ds = cf.whole_defs(base)
+        if len(ds) == 1 and ds[0][0] == "assign" and ds[0][3][0] in ("use", "ref"):
+            src = ds[0][3][1] if ds[0][3][0] == "use" else ["cp", ds[0][3][2]]
+            inner = _closure_operand_path(cf, src, depth + 1)
+            if inner == ("param",) and fs[-1] == ("tuple", "0"):
+                return ("param0",)
+    if base == 2 and not fs:
+        return ("param",)
+    return None
 
 
 def slicing_sites(crate):
